@@ -124,6 +124,9 @@ func runC02(c *fw.Ctx) {
 			c.Eval(1)
 			var err error
 			w, err = openWorld("")
+			if w != nil {
+				w.solo = true
+			}
 			if err != nil {
 				c.Inconclusive("open engine: " + err.Error())
 				return
@@ -523,6 +526,9 @@ func c02Directed(c *fw.Ctx) {
 						c.Count("directed_shapes", 1)
 						var err error
 						w, err = openWorld("")
+						if w != nil {
+							w.solo = true
+						}
 						if err != nil {
 							c.Inconclusive("open engine: " + err.Error())
 							return
